@@ -3,7 +3,7 @@ CONSTANTS
   Forms = {"esc-dq", "esc-sq-two", "esc-z", "esc-call", "esc-call-noparen", "esc-table", "esc-return", "long0", "long1", "cmt0", "cmt2", "cmt-trailing"}
   Conts = {"0", "6"}
   Wraps = {"if-4", "if-0", "nest-2"}
-  Breaks = {"LF"}
-  CrForms = {}
+  Breaks = {"LF", "CRLF"}
+  CrForms = {"esc-dq", "long0"}
   CfgNames = {"s4"}
 INVARIANT Emit
